@@ -50,6 +50,15 @@ def subcase(c, keep):
     return s
 
 
+def zero_pre(c):
+    """is the model's matrix for the eigensolver identically zero (all samples coincide / centred input vanishes)?"""
+    if c["inp"] == "pts":
+        return sp.rows_identical(c["rows"])
+    if c["inp"] == "dist":
+        return sp.centred_is_zero([[v * v for v in r] for r in c["rows"]])
+    return sp.centred_is_zero(c["rows"])
+
+
 # ----------------------------------------------------------------------------- judging
 def judge(ctx, binary, cases):
     """returns one verdict dict per case: {impl, model, bad: [(token, kind)], sig}"""
@@ -58,6 +67,11 @@ def judge(ctx, binary, cases):
     jl, where = [], []
     verdicts = [None] * len(cases)
     for n, (c, line, io) in enumerate(zip(cases, lines, impl)):
+        if io == "throw:eigendecomposition_error" and c["solver"] == "rand" and zero_pre(c):
+            # numerically zero matrix + Randomized solver: the documented eigendecomposition_error
+            # (behaviour pinned by the repository's own test Interface::EigenDecompositionFailMDS)
+            verdicts[n] = {"impl": io, "model": "", "bad": [], "soft": [], "skip": "documented-error:zero-matrix"}
+            continue
         if not io.startswith("ok "):
             verdicts[n] = {"impl": io, "model": "", "bad": [("impl", io.split("@")[0])], "soft": []}
             continue
@@ -167,7 +181,9 @@ def account(ctx, c, v):
         for part in cmp_.split(","):
             k, n = part.split(":")
             ctx.stat("comparisons:" + k, int(n))
-    if v["sig"] is None:
+    if v.get("skip"):
+        ctx.stat("verdict:" + v["skip"])
+    elif v["sig"] is None:
         ctx.stat("verdict:ok")
     elif v["bad"]:
         ctx.stat("verdict:oracle-false")
